@@ -139,7 +139,7 @@ def check(case, ctx):
     ff = case["full_fraction"]
     ctx.cls("kind=" + case["kind"], "full_fraction=%s" % ff,
             "request=%s" % ("none" if case["request"] is None else type(case["request"]).__name__))
-    kw = dict(n_to_select=case["request"], initialize=case["initialize"], full_fraction=ff,
+    kw = dict(n_to_select=S.native(case["request"]), initialize=case["initialize"], full_fraction=ff,
               n_trial_calculation=case["n_trial"], random_state=case["random_state"])
     v = VoronoiFPS(**kw)
     log = []        # (n_selected after step, max table error on unselected, n_active or None, sparse?)
@@ -184,9 +184,9 @@ def check(case, ctx):
     if not (len(set(idx.tolist())) == len(idx) and np.all(idx >= 0) and np.all(idx < N)):
         ctx.fail("invalid-indices", str(idx.tolist()))
         return
-    req = case["request"]
+    req = S.native(case["request"])
     R = S.resolve_request(req, n)
-    ok_count = (len(idx) == R) if isinstance(req, int) else (abs(len(idx) - (n / 2 if req is None else n * req)) < 1)
+    ok_count = (len(idx) == R) if isinstance(req, (int, np.integer)) else (abs(len(idx) - (n / 2 if req is None else n * req)) < 1)
     ctx.true("count", ok_count, "%d selections for request %r of %d" % (len(idx), req, n))
     if case["initialize"] != "random":
         ctx.true("initial-index", int(idx[0]) == int(case["initialize"]), "first %d" % idx[0])
